@@ -75,6 +75,9 @@ class Contract:
         self.stub_defaults: dict[str, str] = kw.pop("stub_defaults", {})  # trusted stubs: defaults of omitted parameters
         # comps: {ordinal of a map comprehension [e for x in L]: [element invariant clauses over x and `_y`]} (interp._listcomp_map)
         self.comps: dict[int, list[str]] = kw.pop("comps", {})
+        # inline_loops: {"<callee function name>": {loop ordinal: loop spec}} - loop specs for callees executed inline while
+        # THIS function is verified (stmts.loop)
+        self.inline_loops: dict[str, dict] = kw.pop("inline_loops", {})
         self.specialize: dict[str, list] = kw.pop("specialize", {})  # param -> concrete values (case split, completeness proved)  # labelled assumptions (listed in evidence)
         if kw:
             raise TypeError("unknown contract keys %s for %s" % (list(kw), key))
